@@ -16,6 +16,13 @@ package idl
 //@ pred ws(c) = c == 32 || c == 9 || c == 13 || c == 10
 //@ pred tokenStart(p) = p.position >= len(p.input) || (!ws(p.input[p.position]) && p.input[p.position] != 35)
 
+//@ ghost gpos int
+//@ ghost gone int
+//@ ghost gtwo int
+//@ ghost cstart [int]int
+
+//@ pred incomment(p, lo, i) = lo <= cstart[i] && cstart[i] <= i && p.input[cstart[i]] == 35 && (forall k int :: cstart[i] <= k && k <= i ==> p.input[k] != 10)
+
 //@ func (*parser).next {C05 C06 | safety: C09}
 //@   requires [pos] p != nil && 0 <= p.position && p.position <= len(p.input) + 1
 //@   modifies p.position
@@ -30,14 +37,19 @@ package idl
 
 //@ func (*parser).advance {C05 C06 | safety: C09}
 //@   requires [pos] wf1(p)
-//@   modifies p.position, p.lineStart, p.lastComment
+//@   modifies p.position, p.lineStart, p.lastComment, gpos, cstart
 //@   ensures [wf1 C05 C06 C09] wf1(p) && p.position >= old(p.position)
 //@   ensures [wf C05 C06 C09] old(p.position) <= len(p.input) ==> p.position <= len(p.input)
 //@   ensures [maximal C05] old(p.position) <= len(p.input) ==> tokenStart(p)
 //@   ensures [ret C05 C06 C09] result == (p.position < len(p.input))
+//@   ensures [layout C05 C06] forall i int :: old(p.position) <= i && i < p.position && i < len(p.input) ==> ws(p.input[i]) || incomment(p, old(p.position), i)
+//@   ghostset at call(next)#1 : gpos = p.position - 1
+//@   ghostset at call(Len)#1 : cstart = fill(cstart, gpos, p.position, gpos)
 //@   loop 1 invariant [wf] wf1(p) && p.position >= old(p.position) && (old(p.position) <= len(p.input) ==> p.position <= len(p.input))
+//@   loop 1 invariant [layout C05 C06] forall i int :: old(p.position) <= i && i < p.position && i < len(p.input) ==> ws(p.input[i]) || incomment(p, old(p.position), i)
 //@   loop 1 decreases len(p.input) - p.position
 //@   loop 2 invariant [wf] wf(p) && p.position >= entry(p.position) && 0 <= start && start <= p.position
+//@   loop 2 invariant [nolf C05 C06] old(p.position) <= gpos && gpos < start && start <= gpos + 2 && p.input[gpos] == 35 && (forall k int :: gpos <= k && k < p.position ==> p.input[k] != 10)
 //@   loop 2 decreases len(p.input) - p.position
 
 //@ func (*parser).advanceOnLine {C05 C06 | safety: C09}
@@ -90,47 +102,134 @@ package idl
 //@   loop 1 invariant [run C05 C06] forall i int :: old(p.position) <= i && i < p.position ==> alnum(p.input[i])
 //@   loop 1 decreases len(p.input) - p.position
 
+//@ pred pureFields(t) = (t.Kind == TypeStruct || t.Kind == TypeEnum) &&
+//@     (t.Kind == TypeStruct ==> (forall j int :: 0 <= j && j < len(t.Fields) ==> t.Fields[j].Type != nil)) &&
+//@     (t.Kind == TypeEnum ==> (forall j int :: 0 <= j && j < len(t.Fields) ==> t.Fields[j].Type == nil))
+
 //@ func (*parser).readStructType {C05 C06 | safety: C09}
 //@   requires [wf] wf(p)
 //@   decreases 2 * (len(p.input) - p.position)
-//@   modifies p.position, p.lineStart, p.lastComment
+//@   modifies p.position, p.lineStart, p.lastComment, gpos, cstart
 //@   ensures [wf C05 C06 C09] result != nil ==> wf(p)
 //@   ensures [wf1 C05 C06 C09] wf1(p) && p.position >= old(p.position)
 //@   ensures [fresh C05 C06 C09] result != nil ==> fresh(result)
+//@   ensures [soft C06] result == nil && !(old(p.position) < len(p.input) && p.input[old(p.position)] == 40) ==> p.position == old(p.position)
+//@   ensures [parens C06] result != nil ==> p.input[old(p.position)] == 40 && p.position >= old(p.position) + 2 && p.input[p.position - 1] == 41
+//@   ensures [pure C06 C07] result != nil ==> pureFields(result)
+//@   ensures [enum C06] result != nil && result.Kind == TypeEnum ==> len(result.Fields) >= 1
+//@   ensures [names C05 C06] result != nil ==> (forall j int :: 0 <= j && j < len(result.Fields) ==> result.Fields[j].Name != "")
+//@   assert [tok-first C05] at call(next)#2 : tokenStart(p)
+//@   assert [tok-field C05] at call(readFieldName)#1 : tokenStart(p)
+//@   assert [tok-colon C05] at call(next)#3 : tokenStart(p)
+//@   assert [tok-type C05] at call(readType)#1 : tokenStart(p)
+//@   assert [tok-sep C05] at call(next)#4 : tokenStart(p)
 //@   loop 1 invariant [wf] wf(p) && p.position > old(p.position)
+//@   loop 1 invariant [pure C06 C07] pureFields(t)
+//@   loop 1 invariant [enum C06] t.Kind == TypeEnum ==> len(t.Fields) >= 1
+//@   loop 1 invariant [names C05 C06] forall j int :: 0 <= j && j < len(t.Fields) ==> t.Fields[j].Name != ""
 //@   loop 1 decreases len(p.input) - p.position
+
+//@ pred c0(p) = p.input[old(p.position)]
+//@ pred typeInv(t) = t.Kind <= TypeAlias &&
+//@     ((t.Kind == TypeArray || t.Kind == TypeMap || t.Kind == TypeMaybe) ==> t.ElementType != nil) &&
+//@     (t.Kind == TypeMaybe ==> t.ElementType.Kind != TypeMaybe) &&
+//@     (t.Kind == TypeStruct ==> (forall j int :: 0 <= j && j < len(t.Fields) ==> t.Fields[j].Type != nil))
 
 //@ func (*parser).readType {C05 C06 | safety: C09}
 //@   requires [wf] wf(p)
 //@   decreases 2 * (len(p.input) - p.position) + 1
-//@   modifies p.position, p.lineStart, p.lastComment
+//@   modifies p.position, p.lineStart, p.lastComment, gpos, cstart
 //@   ensures [wf C05 C06 C09] result != nil ==> wf(p)
 //@   ensures [wf1 C05 C06 C09] wf1(p) && p.position >= old(p.position)
 //@   ensures [fresh C05 C06 C09] result != nil ==> fresh(result)
+//@   ensures [progress C05 C06 C09] result != nil ==> p.position > old(p.position)
+//@   ensures [inv C06 C07] result != nil ==> typeInv(result)
+//@   ensures [maybe C05] result != nil && c0(p) == 63 ==> result.Kind == TypeMaybe
+//@   ensures [maybe-only C06] result != nil && result.Kind == TypeMaybe ==> c0(p) == 63
+//@   ensures [array C05] result != nil && c0(p) == 91 && p.input[old(p.position) + 1] == 93 ==> result.Kind == TypeArray
+//@   ensures [mapkey C05 C06] result != nil && c0(p) == 91 ==>
+//@       (result.Kind == TypeArray && p.input[old(p.position) + 1] == 93) ||
+//@       (result.Kind == TypeMap && p.input[old(p.position) + 1 : old(p.position) + 7] == "string" && p.input[old(p.position) + 7] == 93)
+//@   ensures [brack-only C06] result != nil && (result.Kind == TypeArray || result.Kind == TypeMap) ==> c0(p) == 91
+//@   ensures [builtin C05 C06] result != nil && lower(c0(p)) ==>
+//@       (result.Kind == TypeBool && p.input[old(p.position):p.position] == "bool") ||
+//@       (result.Kind == TypeInt && p.input[old(p.position):p.position] == "int") ||
+//@       (result.Kind == TypeFloat && p.input[old(p.position):p.position] == "float") ||
+//@       (result.Kind == TypeString && p.input[old(p.position):p.position] == "string") ||
+//@       (result.Kind == TypeObject && p.input[old(p.position):p.position] == "object")
+//@   ensures [builtin-only C06] result != nil && result.Kind <= TypeObject ==> lower(c0(p))
+//@   ensures [alias C05 C06] result != nil && (upper(c0(p)) || digit(c0(p))) ==> result.Kind == TypeAlias && result.Alias == p.input[old(p.position):p.position]
+//@   ensures [alias-only C06] result != nil && result.Kind == TypeAlias ==> (upper(c0(p)) || digit(c0(p))) && result.Alias != ""
+//@   ensures [struct C05 C06] result != nil && c0(p) == 40 ==> (result.Kind == TypeStruct || result.Kind == TypeEnum) && p.input[p.position - 1] == 41
+//@   ensures [struct-only C06] result != nil && (result.Kind == TypeStruct || result.Kind == TypeEnum) ==> c0(p) == 40
+//@   ensures [soft C06] result == nil && old(p.position) < len(p.input) && !lower(c0(p)) && !upper(c0(p)) && !digit(c0(p)) && c0(p) != 63 && c0(p) != 91 && c0(p) != 40 ==> p.position == old(p.position)
+//@   ensures [soft-eof C06] result == nil && old(p.position) >= len(p.input) ==> p.position == old(p.position)
 
 //@ func (*parser).readAlias {C05 C06 | safety: C09}
 //@   requires [wf] wf(p)
-//@   modifies p.position, p.lineStart, p.lastComment
+//@   modifies p.position, p.lineStart, p.lastComment, gpos, cstart
 //@   ensures [wf C05 C06 C09] result1 == nil ==> wf(p) && p.position >= old(p.position) && result0 != nil && fresh(result0)
+//@   ensures [fields C05 C06 C07] result1 == nil ==> result0.Name != "" && result0.Type != nil
+//@   ensures [err C06] result1 != nil ==> result0 == nil
+//@   assert [tok-name C05] at call(readTypeName)#1 : tokenStart(p)
+//@   assert [tok-type C05] at call(readType)#1 : tokenStart(p)
 
 //@ func (*parser).readMethod {C05 C06 | safety: C09}
 //@   requires [wf] wf(p)
-//@   modifies p.position, p.lineStart, p.lastComment
+//@   modifies p.position, p.lineStart, p.lastComment, gpos, cstart, gone, gtwo
 //@   ensures [wf C05 C06 C09] result1 == nil ==> wf(p) && p.position >= old(p.position) && result0 != nil && fresh(result0)
+//@   ensures [fields C05 C06 C07] result1 == nil ==> result0.Name != "" && result0.In != nil && result0.Out != nil
+//@   ensures [arrow C06] result1 == nil ==> gone == 45 && gtwo == 62
+//@   ensures [err C06] result1 != nil ==> result0 == nil
+//@   ghostset at call(next)#1 : gone = res0
+//@   ghostset at call(next)#2 : gtwo = res0
+//@   assert [tok-name C05] at call(readTypeName)#1 : tokenStart(p)
+//@   assert [tok-in C05] at call(readType)#1 : tokenStart(p)
+//@   assert [tok-arrow C05] at call(next)#1 : tokenStart(p)
+//@   assert [tok-out C05] at call(readType)#2 : tokenStart(p)
 
 //@ func (*parser).readError {C05 C06 | safety: C09}
 //@   requires [wf] wf(p)
-//@   modifies p.position, p.lineStart, p.lastComment
+//@   modifies p.position, p.lineStart, p.lastComment, gpos, cstart
 //@   ensures [wf1 C05 C06 C09] result1 == nil ==> wf1(p) && p.position >= old(p.position) && result0 != nil && fresh(result0)
 //@   ensures [wf C05 C06] result1 == nil ==> wf(p)
+//@   ensures [fields C05 C06] result1 == nil ==> result0.Name != ""
+//@   ensures [softfail C06] result1 == nil && result0.Type == nil ==> (forall i int :: gpos <= i && i < p.position ==> p.input[i] == 32 || p.input[i] == 9)
+//@   ensures [err C06] result1 != nil ==> result0 == nil
+//@   ghostset at call(readTypeName)#1 : gpos = p.position
+//@   assert [tok-name C05] at call(readTypeName)#1 : tokenStart(p)
+//@   assert [tok-type C05] at call(readType)#1 : p.position >= len(p.input) || (p.input[p.position] != 32 && p.input[p.position] != 9)
+
+//@ pred inA(idl, members) = forall i int :: 0 <= i && i < len(idl.Aliases) ==> idl.Aliases[i] != nil && has(members, idl.Aliases[i].Name)
+//@ pred inM(idl, members) = forall i int :: 0 <= i && i < len(idl.Methods) ==> idl.Methods[i] != nil && has(members, idl.Methods[i].Name)
+//@ pred inE(idl, members) = forall i int :: 0 <= i && i < len(idl.Errors) ==> idl.Errors[i] != nil && has(members, idl.Errors[i].Name)
 
 //@ func (*parser).readIDL {C05 C06 | safety: C09}
 //@   requires [wf] wf(p)
-//@   modifies p.position, p.lineStart, p.lastComment
+//@   modifies p.position, p.lineStart, p.lastComment, gpos, cstart, gone, gtwo
 //@   ensures [nonnil C05 C06 C09] result1 == nil ==> result0 != nil && fresh(result0)
-//@   loop 1 invariant [wf] wf1(p)
+//@   ensures [eof C06] result1 == nil ==> p.position >= len(p.input)
+//@   ensures [members C05] result1 == nil ==> len(result0.Members) == len(result0.Aliases) + len(result0.Methods) + len(result0.Errors)
+//@   ensures [name C05] result1 == nil ==> result0.Name != ""
+//@   ensures [err C06] result1 != nil ==> result0 == nil
+//@   assert [tok-name C05] at call(readInterfaceName)#1 : tokenStart(p)
+//@   assert [tok-member C05] at call(readKeyword)#2 : tokenStart(p)
+//@   assert [new-alias C06] at mapupdate#1 : !has(members, a.Name) && key == a.Name
+//@   assert [new-method C06] at mapupdate#2 : !has(members, m.Name) && key == m.Name
+//@   assert [new-error C06] at mapupdate#3 : !has(members, e.Name) && key == e.Name
+//@   assert [app-alias C05 C06] at call(append)#1 : arg0 == idl.Aliases
+//@   assert [app-method C05 C06] at call(append)#3 : arg0 == idl.Methods
+//@   assert [app-error C05 C06] at call(append)#5 : arg0 == idl.Errors
+//@   loop 1 invariant [wf] wf1(p) && idl != nil
+//@   loop 1 invariant [members C05] len(idl.Members) == len(idl.Aliases) + len(idl.Methods) + len(idl.Errors)
+//@   loop 1 invariant [inA C06] inA(idl, members)
+//@   loop 1 invariant [inM C06] inM(idl, members)
+//@   loop 1 invariant [inE C06] inE(idl, members)
 //@   loop 1 decreases len(p.input) - p.position
 
 //@ func New {C05 C06 | safety: C09}
+//@   modifies gpos, cstart, gone, gtwo
 //@   ensures [notree C06] result1 != nil ==> result0 == nil
 //@   ensures [desc C05] result1 == nil ==> result0 != nil && result0.Description == description
+//@   ensures [methods C06] result1 == nil ==> len(result0.Methods) >= 1
+//@   ensures [members C05] result1 == nil ==> len(result0.Members) == len(result0.Aliases) + len(result0.Methods) + len(result0.Errors)
